@@ -30,8 +30,11 @@ def run(ctx):
         pf = 7 if rng.random() < 0.6 else rng.randrange(8)
         qe = rng.randrange(2)
         parsing = rng.random() < 0.8
+        # the reader's other options, fixed per stream (so that cut runs compare with their own uncut run)
+        val, mm, bfo = (1, 0, True) if rng.random() < 0.5 else (rng.randrange(2), rng.choice([0, 0, 1, 2, 3]), rng.random() < 0.5)
         for k in range(len(s) + 1):
-            cases.append({"stream": s[:k], "pf": pf, "qe": qe, "parsing": parsing, "full": s, "k": k, "parts": parts})
+            cases.append({"stream": s[:k], "pf": pf, "qe": qe, "parsing": parsing, "full": s, "k": k, "parts": parts,
+                          "validate": val, "msgmode": mm, "bf": bfo})
     obs = rp.correspond_runs(ctx, cases, "READ")
     ctx.exhaustive_parts.append("every cut position of %d streams (%d cut runs)" % (len(streams), len(cases)))
     full = {}
@@ -41,7 +44,8 @@ def run(ctx):
     for c, o in zip(cases, obs):
         ref = full[(c["full"], c["pf"], c["qe"], c["parsing"])]
         got = rp.items_key(o["items"])
-        inp = {"op": "READ", "stream": c["full"].hex(), "cut": c["k"], "pf": c["pf"], "qe": c["qe"], "parsing": c["parsing"]}
+        inp = {"op": "READ", "stream": c["full"].hex(), "cut": c["k"], "pf": c["pf"], "qe": c["qe"], "parsing": c["parsing"],
+               "validate": c["validate"], "msgmode": c["msgmode"], "parsebitfield": c["bf"]}
         if o["raised"] is not None:
             ctx.fail("cut-run-raised", inp, "ends without raising", o["raised"])
         elif got != ref[:len(got)]:
@@ -56,7 +60,7 @@ def run(ctx):
                 pos += len(f)
                 if pos <= c["k"]:
                     before.append((kind, f))
-            exp = rp.expected_clean(before, c["pf"], c["parsing"])
+            exp = rp.expected_clean(before, c["pf"], c["parsing"], c["validate"], c["msgmode"], c["bf"])
             if got[:len(exp)] != exp:
                 ctx.fail("frame-before-cut-not-delivered", inp, [(r.hex(), p) for r, p in exp][:6],
                          [(r.hex(), p) for r, p in got][:6])
